@@ -69,6 +69,11 @@ JOBS = {
     "C10": [
         {"cmd": "c10-engine", "race": True, "batches": {"quick": 2, "thorough": 6}, "timeout": {"quick": 600, "thorough": 2400}},
     ],
+    "C12": [
+        {"cmd": "c12-updates", "race": True, "batches": {"quick": 2, "thorough": 6}, "timeout": {"quick": 600, "thorough": 2400},
+         "race_anchors": ["router.(*routersManagerImpl)", "router.(*RoutersWrapper)", "cluster.(*simpleCluster).UpdateHosts", "configmanager.Set"]},
+        {"cmd": "c12-traffic", "race": True, "timeout": {"quick": 600, "thorough": 2400}},
+    ],
     "C13": [
         {"cmd": "c13-lab", "race": True, "batches": {"quick": 2, "thorough": 4}, "timeout": {"quick": 300, "thorough": 1500}},
         {"cmd": "c13-e2e", "race": True, "batches": {"quick": 2, "thorough": 2}, "timeout": {"quick": 300, "thorough": 900}},
